@@ -24,6 +24,7 @@ def run(ctx, res):
     prog = ctx.prog("K0")
     ssr.rule_count_fields(prog, res)
     ssr.rule_tables(prog, res)
+    ssr.rule_value_flow(prog, res)
     ssr.rule_decode_capacity(prog, res)
     ssr.rule_1230(prog, res)
     fieldmodel.check_handwritten(prog, res, prop="C08")
